@@ -253,10 +253,12 @@ def check(case):
     r = CaseResult(evals=len(trees), nt_keys=nt, labels=labels + (["in-list"] if in_list else []),
                    sample={"folded": render(trees[0]), "unfolded": programs([trees[0]], in_list)[1], "model": predicted(trees[0])})
     suspects = list(lone)
+    batch_fails = None
     if ok_trees:
         res, fails, _ = scenario.execute(make_scenario(ok_trees, in_list))
         if fails:
             suspects = ok_trees + suspects
+            batch_fails = fails
     first_known = None
     for t in suspects:
         sc = make_scenario([t], in_list)
@@ -278,6 +280,22 @@ def check(case):
         return r
     if first_known:
         r.failure = first_known
+    elif batch_fails and not batch_fails[0].startswith("harness:"):
+        # every tree agrees with its unfolded form when it is compiled ALONE, the program that holds them all does not: what the
+        # folder did for one expression changed what it does for another. Look for two trees that show it (in both orders).
+        sc, shown = make_scenario(ok_trees, in_list), "%d trees" % len(ok_trees)
+        done = False
+        for j in range(len(ok_trees)):
+            for i in range(len(ok_trees)):
+                if i == j or done:
+                    continue
+                if render(ok_trees[i]).replace("B", "").replace("f", "").replace("0b", "") != render(ok_trees[j]).replace("B", "").replace("f", "").replace("0b", "") and len(ok_trees) > 12:
+                    continue          # (keeps the search quadratic only among look-alikes when the program is long)
+                sc2 = make_scenario([ok_trees[j], ok_trees[i]], in_list)
+                _, f2, _ = scenario.execute(sc2)
+                if f2 and not f2[0].startswith("harness:"):
+                    sc, shown, batch_fails, done = sc2, "%s  THEN  %s" % (render(ok_trees[j]), render(ok_trees[i])), f2, True
+        r.failure = fail("%s in one program: %s (each tree agrees when compiled alone)" % (shown, "; ".join(batch_fails)), "C06:cross-expression", sc, case={"trees": shown})
     return r
 
 
@@ -366,6 +384,30 @@ def enumerated(tier, seed):
         d2 = random.Random(seed).sample(d2, len(d2) // 3)
     cases = [{"trees": c} for c in chunks(d1, 60)] + [{"trees": c} for c in chunks(d2, 60)]
     cases += [{"trees": c, "in_list": True} for c in chunks(d1[::7], 60)]
+    # one compilation folds MANY expressions: the same digits under every pair of kinds in one program, in both orders (what the
+    # folder learned from one expression must not leak into the next), and the depth-1 trees again in a shuffled order so that
+    # neighbours in one program are of unrelated kinds
+    for a, b in ((7, 2), (1, 1), (0, 1), (255, 1), (5, 2), (2, 31), (100, 7)):
+        same = []
+        for op in ARITH + BITS:
+            for ka in ("int", "bigint", "byte", "float", "floatf"):
+                for kb in ("int", "bigint", "byte", "float", "floatf"):
+                    def leaf(k, v):
+                        if k == "float":
+                            return L("float", float(v))
+                        if k == "floatf":
+                            return ("lit", "float", float(v), "%df" % v)
+                        return L(k, v)
+                    t = ("bin", op, leaf(ka, a), leaf(kb, b))
+                    if well_typed(t):
+                        same.append(t)
+        for chunk in chunks(same, 50):
+            cases.append({"trees": chunk, "family": "same-digits-across-kinds"})
+            cases.append({"trees": chunk[::-1], "family": "same-digits-across-kinds"})
+    import random as _r
+    sh = list(d1)
+    _r.Random(seed + 17).shuffle(sh)
+    cases += [{"trees": c, "family": "shuffled"} for c in chunks(sh if tier != "quick" else sh[:len(sh) // 2], 60)]
     sv = special_value_trees()
     cases += [{"trees": c} for c in chunks(sv, 60)] + [{"trees": c, "in_list": True} for c in chunks(sv[::3], 60)]
     return cases
